@@ -17,6 +17,7 @@ pub mod c11;
 pub mod c12;
 pub mod c13;
 pub mod c14;
+pub mod c15;
 pub mod c17;
 pub mod c18;
 pub mod c19;
@@ -41,6 +42,7 @@ pub fn dispatch(prop: &str, tier: Tier, replay: Option<String>) -> i32 {
         "C12" => c12::run(tier, replay),
         "C13" => c13::run(tier, replay),
         "C14" => c14::run(tier, replay),
+        "C15" => c15::run(tier, replay),
         "C17" => c17::run(tier, replay),
         "C18" => c18::run(tier, replay),
         "C16" => c05::run("C16", tier, replay),
